@@ -182,6 +182,142 @@ func resetEffects(p *Program, fn *ssa.Function, sn string, cover map[string]*fie
 	})
 }
 
+// endOfDocumentAlwaysRuns: the per-document driver of the build (interim.processDocument) reaches the
+// end-of-document call of every section — Process(opaque, docNum, nil, MaxUint16), which is where the
+// inverted-index builder zeroes its per-document scratch — on every path to every return.
+func endOfDocumentAlwaysRuns(c *RuleCtx) (bool, string) {
+	fn := c.method("interim", "processDocument")
+	if fn == nil || len(fn.Blocks) == 0 {
+		return false, "interim.processDocument not found"
+	}
+	var eod ssa.Instruction
+	eachInstr(fn, func(_ *ssa.BasicBlock, in ssa.Instruction) {
+		call, ok := in.(*ssa.Call)
+		if !ok || !call.Call.IsInvoke() || call.Call.Method.Name() != "Process" || len(call.Call.Args) != 4 {
+			return
+		}
+		if k, ok := constUint64(call.Call.Args[3]); ok && k == 65535 && isNilConst(call.Call.Args[2]) {
+			eod = in
+		}
+	})
+	if eod == nil {
+		return false, "the end-of-document call Process(opaque, docNum, nil, MaxUint16) is not found in interim.processDocument"
+	}
+	// the loop over the sections that contains it: entering that loop is as good as the call
+	head := eod.Block()
+	for _, b := range fn.Blocks {
+		if b.Dominates(eod.Block()) {
+			for _, p := range b.Preds {
+				if b.Dominates(p) && (p == eod.Block() || eod.Block().Dominates(p) || reachesBlock(eod.Block(), p)) {
+					head = b
+				}
+			}
+		}
+	}
+	pa := newPathAnalysis(fn, func(in ssa.Instruction, ev uint64, _ bool) []uint64 {
+		if in == eod || (len(head.Instrs) > 0 && in == head.Instrs[0]) {
+			return []uint64{ev | 1}
+		}
+		return nil
+	})
+	pa.run(0)
+	for _, ret := range returnsOf(fn) {
+		for _, ev := range pa.statesBefore(ret) {
+			if ev&1 == 0 {
+				return false, "interim.processDocument can return (" + c.pos(ret) + ") without the end-of-document step: the scratch of the abandoned document stays in the pooled builder"
+			}
+		}
+	}
+	return true, ""
+}
+
+// builderPooledAfterFailedConvert: some Put of the builder pool in newWithChunkMode is reachable on a path
+// where convert() ran and its error is not known to be nil (a build abandoned half way can only leave
+// something behind for the next build if its builder is recycled).
+func builderPooledAfterFailedConvert(c *RuleCtx) bool {
+	nwcm := c.method("ZapPlugin", "newWithChunkMode")
+	convert := c.method("interim", "convert")
+	if nwcm == nil || convert == nil {
+		return true // cannot tell: assume the worse
+	}
+	var conv *ssa.Call
+	for _, cs := range callSites(nwcm) {
+		if call, ok := cs.(*ssa.Call); ok && staticCallee(cs) == convert {
+			conv = call
+		}
+	}
+	if conv == nil {
+		return true
+	}
+	errv := errValueOfCall(conv)
+	const called, isNil = 1, 2
+	condTr := func(cond ssa.Value, outcome bool, ev uint64, _ func(ssa.Value) ssa.Value) uint64 {
+		bo, ok := cond.(*ssa.BinOp)
+		if !ok || (bo.Op != token.EQL && bo.Op != token.NEQ) {
+			return ev
+		}
+		var other ssa.Value
+		switch {
+		case isNilConst(bo.Y):
+			other = bo.X
+		case isNilConst(bo.X):
+			other = bo.Y
+		default:
+			return ev
+		}
+		if errv != nil && sameValue(other, errv) {
+			if (bo.Op == token.EQL) == outcome {
+				ev |= isNil
+			} else {
+				ev &^= isNil
+			}
+		}
+		return ev
+	}
+	pa := newPathAnalysis(nwcm, func(in ssa.Instruction, ev uint64, _ bool) []uint64 {
+		if in == ssa.Instruction(conv) {
+			return []uint64{(ev | called) &^ isNil}
+		}
+		return nil
+	})
+	pa.condTr = condTr
+	pa.edgeTr = func(pred *ssa.BasicBlock, succIdx int, ev uint64) uint64 {
+		if iff, ok := pred.Instrs[len(pred.Instrs)-1].(*ssa.If); ok && len(pred.Succs) == 2 {
+			return condTr(iff.Cond, succIdx == 0, ev, nil)
+		}
+		return ev
+	}
+	pa.run(0)
+	for _, cs := range callSites(nwcm) {
+		if g, op := poolOp(cs); g != nil && op == "Put" {
+			for _, ev := range pa.statesBefore(cs) {
+				if ev&called != 0 && ev&isNil == 0 {
+					return true
+				}
+			}
+		}
+	}
+	return false
+}
+
+func reachesBlock(from, to *ssa.BasicBlock) bool {
+	seen := map[*ssa.BasicBlock]bool{}
+	work := []*ssa.BasicBlock{from}
+	for len(work) > 0 {
+		x := work[len(work)-1]
+		work = work[:len(work)-1]
+		if x == to {
+			return true
+		}
+		if seen[x] {
+			continue
+		}
+		seen[x] = true
+		work = append(work, x.Succs...)
+	}
+	return false
+}
+
 // blocksReaching: the blocks from which b can be reached over at least one edge.
 func blocksReaching(b *ssa.BasicBlock) map[*ssa.BasicBlock]bool {
 	out := map[*ssa.BasicBlock]bool{}
@@ -553,6 +689,15 @@ func ruleR10() *Rule {
 							k := fmt.Sprintf("%s.%s@%s", t.name, f, funcShortName(fn))
 							key := t.name + "/reextend/" + f + "@" + funcShortName(fn)
 							if reason, ok := reextendOK[k]; ok {
+								if strings.Contains(reason, "end of every document") {
+									// the tabled reason is an assumption about control flow: check it
+									if holds, why := endOfDocumentAlwaysRuns(c); !holds && builderPooledAfterFailedConvert(c) {
+										c.bad(key, c.pos(sl), "a slice that Reset only truncates is not re-extended over stale elements",
+											fmt.Sprintf("%s.%s is only truncated by Reset and re-extended in %s; it is clean only because process() zeroes it at the end of every document, and that no longer holds: %s", t.name, f, funcShortName(fn), why),
+											"reslice: "+describeInstr(p, sl))
+										return
+									}
+								}
 								c.ok(key, c.pos(sl), "truncated-only slice "+t.name+"."+f+" is re-extended in "+funcShortName(fn)+": tabled: "+reason)
 							} else {
 								c.bad(key, c.pos(sl), "a slice that Reset only truncates is not re-extended over stale elements",
@@ -626,6 +771,14 @@ func ruleR10() *Rule {
 					ppa := newPathAnalysis(nwcm, func(in ssa.Instruction, ev uint64, _ bool) []uint64 {
 						for _, st := range steps {
 							if ssa.Instruction(st.call) == in {
+								if !st.reset {
+									// the builder is used again: an earlier reset no longer counts
+									for _, r := range steps {
+										if r.reset {
+											ev &^= r.called | r.isNil
+										}
+									}
+								}
 								return []uint64{(ev | st.called) &^ st.isNil}
 							}
 						}
@@ -639,27 +792,26 @@ func ruleR10() *Rule {
 						return ev
 					}
 					ppa.run(0)
-					sawReset := len(ppa.statesBefore(cs)) > 0
+					// What the property needs is that the pooled builder is clean: reset() ran after the last
+					// use of the builder on this path and reported success. Whether the build itself had
+					// succeeded does not matter (a rejected batch may recycle its builder, round-7 seed C10g).
 					for _, ev := range ppa.statesBefore(cs) {
-						resetRan := false
+						resetOK := false
 						for _, st := range steps {
-							if ev&st.called != 0 && ev&st.isNil == 0 {
-								okc = false
-								why = append(why, "error of "+st.name+" is not known to be nil where the builder is returned to the pool")
-							}
-							if st.reset && ev&st.called != 0 {
-								resetRan = true
+							if st.reset && ev&st.called != 0 && ev&st.isNil != 0 {
+								resetOK = true
 							}
 						}
-						if !resetRan {
-							sawReset = false
+						if !resetOK {
+							okc = false
+							why = append(why, "on some path the builder goes back to the pool without a reset() that ran after its last use and was found to have succeeded")
 						}
 					}
-					if !sawReset {
+					if len(ppa.statesBefore(cs)) == 0 {
 						okc = false
-						why = append(why, "no reset() precedes the Put on some path")
+						why = append(why, "the Put is unreachable for the analysis")
 					}
-					c.check(okc, "put-after-successful-reset", c.pos(cs), "the builder goes back to the pool only after convert, InitSegmentBase and reset all succeeded", strings.Join(uniq(why), "; "))
+					c.check(okc, "put-after-successful-reset", c.pos(cs), "the builder goes back to the pool only after a reset() that ran after its last use and succeeded", strings.Join(uniq(why), "; "))
 				}
 			}
 
